@@ -1,13 +1,14 @@
 package updog
 
 import (
+	"encoding/binary"
 	"fmt"
-	"math/bits"
 	"sort"
 	"strings"
 	"time"
 
 	"github.com/RoaringBitmap/roaring"
+	"github.com/cespare/xxhash/v2"
 )
 
 // Query describes a count query to execute on an index. updog allows you to run
@@ -241,8 +242,24 @@ const (
 	maskOr  = 0xBFB85A99B03E78E7
 )
 
+// combineCacheKeys derives the cache key of an operator node from the operator's mask and
+// the keys of its operands, in order. Unlike XORing the operand keys it depends on the
+// order, number and multiplicity of the operands, so that only structurally identical
+// expressions share a key.
+func combineCacheKeys(mask uint64, keys ...uint64) uint64 {
+	buf := make([]byte, 8*(len(keys)+1))
+
+	binary.BigEndian.PutUint64(buf, mask)
+
+	for i, k := range keys {
+		binary.BigEndian.PutUint64(buf[8*(i+1):], k)
+	}
+
+	return xxhash.Sum64(buf)
+}
+
 func (e *ExprNot) cacheKey() uint64 {
-	return bits.RotateLeft64(e.Expr.cacheKey(), 1) ^ maskNot
+	return combineCacheKeys(maskNot, e.Expr.cacheKey())
 }
 
 type ExprAnd struct {
@@ -293,12 +310,12 @@ func (e *ExprAnd) String() string {
 }
 
 func (e *ExprAnd) cacheKey() uint64 {
-	key := uint64(maskAnd)
+	keys := make([]uint64, 0, len(e.Exprs))
 	for _, e := range e.Exprs {
-		key = key ^ bits.RotateLeft64(e.cacheKey(), 1)
+		keys = append(keys, e.cacheKey())
 	}
 
-	return key
+	return combineCacheKeys(maskAnd, keys...)
 }
 
 type ExprOr struct {
@@ -349,10 +366,10 @@ func (e *ExprOr) String() string {
 }
 
 func (e *ExprOr) cacheKey() uint64 {
-	key := uint64(maskOr)
+	keys := make([]uint64, 0, len(e.Exprs))
 	for _, e := range e.Exprs {
-		key = key ^ bits.RotateLeft64(e.cacheKey(), 1)
+		keys = append(keys, e.cacheKey())
 	}
 
-	return key
+	return combineCacheKeys(maskOr, keys...)
 }
